@@ -50,7 +50,7 @@ def mono_at(st, c, n, k):
     st.assume(S(z3.Implies(z3.And((S.lift(k) >= 0).t, (S.lift(k) <= n - 2).t), (c.value([k]) < c.value([k + 1])).t)))
 
 
-def setup(I, st, ndim, values_fn=None):
+def setup(I, st, ndim, values_fn=None, where='inside'):
     """interpolation problem with `ndim` axes: coordinate tables, value table, per-point coordinate arrays"""
     st.point_shape = npm.SymShape(S(z3.Int('npoints')))
     ns = [S(z3.Int('n%d' % a)) for a in range(ndim)]
@@ -63,7 +63,12 @@ def setup(I, st, ndim, values_fn=None):
         buf = npm.Buf(VVar('x%d' % a, 'real'), npm.DT('float64'), st.point_shape, True, True, name='x%d' % a)
         xs.append(npm.PArr(buf))
         xv = st.lower(VVar('x%d' % a, 'real'))
-        st.assume(s_and(xv >= cvecs[a].value([0]), xv <= cvecs[a].value([ns[a] - 1])))
+        if where == 'inside':
+            st.assume(s_and(xv >= cvecs[a].value([0]), xv <= cvecs[a].value([ns[a] - 1])))
+        elif where == 'below':
+            st.assume(xv < cvecs[a].value([0]))                 # left of the first node (e.g. the outer half cell of a cell-centred grid)
+        else:
+            st.assume(xv > cvecs[a].value([ns[a] - 1]))         # right of the last node
     st.cuts['odl.util.vectorization:out_shape_from_meshgrid'] = lambda I2, fr2, mesh: st.point_shape
     return ns, cvecs, values, xs
 
@@ -226,6 +231,50 @@ def unit_canary():
 DOPS_ = 'odl.discr.discr_ops:'
 
 
+def unit_nearest_outside(where, kind):
+    """points OUTSIDE the hull of the nodes (left of the first / right of the last node; inside the domain for cell-centred grids): _find_indices clamps the cell
+    to the first / last one with a normalised distance < 0 / > 1, and nearest-neighbour interpolation (class and per-axis variant) returns the value of the
+    first / last node - the closest one"""
+    def run(ctx):
+        I = ctx.I
+        npm.Table.WRAP_NEGATIVE = True          # edge[0][hi] = -1 addresses the last node
+
+        def path(st):
+            ns, cvecs, values, xs = setup(I, st, 1, where=where)
+            fr = ip.Frame(st)
+            if kind == 'class':
+                inst = I.call(I.get_class(DU + '_NearestInterpolator'), [tuple(cvecs), values, 'array'], {}, fr)
+            else:
+                inst = I.call(I.get_class(DU + '_PerAxisInterpolator'), [tuple(cvecs), values, 'array'], {'interp': ['nearest']}, fr)
+            try:
+                idx, nd = I.call(I._getattr(inst, '_find_indices', fr), [xs], {}, fr)
+                # instances of the monotonicity of the coordinate vector between the position found by the binary search and the two ends
+                for e in [e for e in st.events if e[0] == 'searchsorted' and e[1] is cvecs[0]]:
+                    ki, c, n = e[2], cvecs[0], ns[0]
+                    st.assume(S(z3.Implies(z3.And((S.lift(ki) >= 0).t, (S.lift(ki) <= n - 1).t), (c.value([ki]) <= c.value([n - 1])).t)))
+                    st.assume(S(z3.Implies(z3.And((S.lift(ki) >= 1).t, (S.lift(ki) <= n).t), (c.value([0]) <= c.value([ki - 1])).t)))
+                k0, t0 = st.lower(idx[0].buf.content), st.lower(nd[0].buf.content)
+                res = I.call(I._getattr(inst, '_evaluate', fr), [idx, nd], {}, fr)
+            except ip.PyRaise as e:
+                return ('raise', e.exc)
+            return ('ok', (ns, cvecs, values, k0, t0, res))
+        info = {'where': where, 'interpolator': kind}
+        for st, (status, r) in ctx.explore(path):
+            if status == 'raise':
+                ctx.fail(st, 'no_raise', 'raises %s' % lib.exc_desc(r), info)
+                continue
+            ns, cvecs, values, k0, t0, res = r
+            n = ns[0]
+            if where == 'below':
+                ctx.prove(st, 'left of the first node: first cell, normalised distance < 0', s_and(core.sbool(core.sc_eq(k0, 0)), t0 < 0), info)
+                ctx.prove(st, 'left of the first node: nearest interpolation returns the value of the FIRST node', core.sc_eq(st.lower(res.buf.content), values.value([0])), info)
+            else:
+                ctx.prove(st, 'right of the last node: last cell, normalised distance > 1', s_and(core.sbool(core.sc_eq(k0, n - 2)), t0 > 1), info)
+                ctx.prove(st, 'right of the last node: nearest interpolation returns the value of the LAST node', core.sc_eq(st.lower(res.buf.content), values.value([n - 1])), info)
+    return Unit('interp/nearest-outside/%s/%s' % (where, kind), run, funcs=[DU + '_Interpolator._find_indices', DU + '_compute_nearest_weights_edge', DU + '_NearestInterpolator._evaluate',
+                DU + '_PerAxisInterpolator._evaluate'], config={'where': where, 'interpolator': kind})
+
+
 def unit_resampling(schemes):
     """Resampling hands its per-axis interpolation schemes on unchanged: the `interp` argument given to per_axis_interpolator by `_call` and to the Resampling built
     by `inverse` / `adjoint`, normalised by the real `_normalize_interp`, is the operator's `interp_byaxis` - for every combination of schemes (mixed ones included);
@@ -352,6 +401,9 @@ def units(tier, seed):
         us.append(unit_interp(2, kinds))
     us.append(unit_affine(1))
     us.append(unit_affine(2))
+    for where in ('below', 'above'):
+        for kind in ('class', 'per-axis'):
+            us.append(unit_nearest_outside(where, kind))
     for nd in (1, 2, 3):
         for schemes in itertools.product(('nearest', 'linear'), repeat=nd):
             us.append(unit_resampling(schemes))
